@@ -83,21 +83,9 @@ Proof.
     + apply SQ_plain with (s := s); auto.
 Qed.
 
-Theorem QQ_step c s l s' : QQ s -> step c s l = Some s' -> QQ s'.
+Lemma QQ_step_task c s t s' : QQ s -> step_task c s t = Some s' -> QQ s'.
 Proof.
-  intros [G S] H. destruct l as [t o|t|t|n]; cbn [step] in H.
-  - (* Start *)
-    unfold start in H. destruct (Nat.eqb t (length (tasks s))) eqn:Et; cbn [negb] in H; [|discriminate].
-    pose proof (pcof_fresh s t Et) as Hpc.
-    destruct o as [k rm|x b|x|x| | ].
-    + inversion H; subst. qq_plain s G S Hpc.
-    + destruct (mem_nat x (loose s)); [|destruct (Nat.eqb x (next_oid s))]; inversion H; subst;
-        qq_plain s G S Hpc.
-    + destruct (mem_nat x (out s)); inversion H; subst. qq_plain s G S Hpc.
-    + destruct (mem_nat x (out s)); inversion H; subst. qq_plain s G S Hpc.
-    + inversion H; subst. qq_plain s G S Hpc.
-    + inversion H; subst. qq_plain s G S Hpc.
-  - (* Step *)
+  intros [G S] H.
     unfold step_task in H.
     destruct (pcof s t) as [|k rm|e rm|rm a|w rm|w rm o|r|o|o r|o r|o| | | | |o b|o a|o| | | | | | |sz|r] eqn:Hpc;
       try discriminate H.
@@ -106,8 +94,10 @@ Proof.
       * apply QQ_acquire; try assumption; rewrite Hpc; reflexivity.
       * qq_plain s G S Hpc.
     + (* GAcq *)
-      destruct e; inversion H; subst;
-        [apply QQ_acquire; try assumption; rewrite Hpc; reflexivity..|qq_plain s G S Hpc].
+      destruct e; [| |destruct (rt c)]; inversion H; subst;
+        [apply QQ_acquire; try assumption; rewrite Hpc; reflexivity..| |qq_plain s G S Hpc].
+      apply QQ_acquire; [apply GQ_same with s|apply SQ_same with s|..]; try assumption; try reflexivity;
+        change (pcof (set_timed s (t :: timed s)) t) with (pcof s t); rewrite Hpc; reflexivity.
     + (* GWait *)
       destruct (closed s) eqn:Ec.
       * inversion H; subst. split.
@@ -165,6 +155,23 @@ Proof.
         rewrite Hpc; reflexivity.
     + (* SStart *) inversion H; subst. qq_plain s G S Hpc.
     + (* SAvail *) inversion H; subst. qq_plain s G S Hpc.
+Qed.
+
+Theorem QQ_step c s l s' : QQ s -> step c s l = Some s' -> QQ s'.
+Proof.
+  intros [G S] H. destruct l as [t o|t|t|t|n]; cbn [step] in H.
+  - (* Start *)
+    unfold start in H. destruct (Nat.eqb t (length (tasks s))) eqn:Et; cbn [negb] in H; [|discriminate].
+    pose proof (pcof_fresh s t Et) as Hpc.
+    destruct o as [k rm|x b|x|x| | ].
+    + inversion H; subst. qq_plain s G S Hpc.
+    + destruct (mem_nat x (loose s)); [|destruct (Nat.eqb x (next_oid s))]; inversion H; subst;
+        qq_plain s G S Hpc.
+    + destruct (mem_nat x (out s)); inversion H; subst. qq_plain s G S Hpc.
+    + destruct (mem_nat x (out s)); inversion H; subst. qq_plain s G S Hpc.
+    + inversion H; subst. qq_plain s G S Hpc.
+    + inversion H; subst. qq_plain s G S Hpc.
+  - (* Step *) eapply QQ_step_task; [split; eassumption|exact H].
   - (* Cancel *)
     unfold cancel_task in H.
     destruct (pcof s t) as [|k rm|e rm|rm a|w rm|w rm o|r|o|o r|o r|o| | | | |o b|o a|o| | | | | | |sz|r] eqn:Hpc;
@@ -181,5 +188,14 @@ Proof.
         -- apply GQ_plain with (s := s); sp; try reflexivity; try exact G; rewrite Hpc; reflexivity.
         -- apply SQ_same with (setpc (set_squeue s (remove_nat t (squeue s))) t (PDone RCancelled));
              sp; try reflexivity. apply SQ_leave; [exact S|reflexivity].
+  - (* Fire *)
+    unfold fire_task in H. destruct (negb (rt c && mem_nat t (timed s))); [discriminate|].
+    destruct (pcof s t) as [|k rm|e rm|rm a|w rm|w rm o|r|o|o r|o r|o| | | | |o b|o a|o| | | | | | |sz|r] eqn:Hpc;
+      try discriminate H.
+    destruct (closed s || a) eqn:Eca.
+    + eapply QQ_step_task; [split; eassumption|exact H].
+    + apply orb_false_elim in Eca. destruct Eca as [_ ->]. inversion H; subst.
+      split; [apply GQ_leave; [exact G|reflexivity]|].
+      apply SQ_plain with (s := s); sp; try reflexivity; try exact S; rewrite Hpc; reflexivity.
   - inversion H; subst. split; assumption.
 Qed.
